@@ -111,6 +111,7 @@ func ruleC07(c *Check) {
 	c.moduleServiceNotSuper("C07.7")
 	c.discountPattern("C07.9")
 	c.tiersOrdered("C07.10")
+	c.windowsDisjoint("C07.10")
 	c.addressRoles("C07.11")
 	// "never less than one unit of the base denomination": the price routine reads the denomination off the stored base price, which the parser never leaves empty
 	c.priceNonEmpty("C07.8", c.handFuncs("keeper"))
@@ -1506,4 +1507,79 @@ func (c *Check) tiersOrdered(rule string) {
 		}
 	}
 	c.req(ok, rule, f.Name+"#volume-tiers-ascending", f.Body.Pos(), "the pricing validator rejects a volume tier below its predecessor for every adjacent pair of the list"+condStr(!ok, ": "+why))
+}
+
+// windowsDisjoint (C07.10): at most one time promotion applies at an instant — the validator compares every window's
+// start with the END of the window before it (compared with its start, overlapping windows pass).
+func (c *Check) windowsDisjoint(rule string) {
+	f := c.mustFn(rule, c.typesName("ValidatePricing"))
+	if f == nil {
+		return
+	}
+	ok := false
+	why := "no rejecting path compares a window's StartTime with its predecessor's EndTime under a cursor over the whole list"
+	// the validator itself and the module functions it hands the tiers to (helpers, methods of a slice type)
+	cands := []*Func{f}
+	seenF := map[*Func]bool{f: true}
+	for i := 0; i < len(cands) && i < 12; i++ {
+		for _, h := range c.P.callees(cands[i]) {
+			if h != nil && h.Body != nil && h.isHandWritten() && h.pkgName() == "types" && !seenF[h] {
+				seenF[h] = true
+				cands = append(cands, h)
+			}
+		}
+	}
+	var allPaths []*Path
+	for _, g := range cands {
+		allPaths = append(allPaths, c.P.PathsOf(g)...)
+	}
+	for _, pa := range allPaths {
+		if pa.Exit != ExitRevert {
+			continue
+		}
+		for _, fa := range pa.AllFacts() {
+			if fa.Neg {
+				continue
+			}
+			fa.T.Walk(func(t *Term) bool {
+				if !strings.HasSuffix(t.Op, "time.Time.Before") || len(t.A) != 2 {
+					return true
+				}
+				l, r := stripConv(t.A[0]), stripConv(t.A[1])
+				if !strings.HasSuffix(l.Op, ".PromotionByTime.StartTime") || !strings.HasSuffix(r.Op, ".PromotionByTime.EndTime") || len(l.A) != 1 || len(r.A) != 1 {
+					return true
+				}
+				cur, prev := stripConv(l.A[0]), stripConv(r.A[0])
+				var list, pos *Term
+				switch {
+				case cur.Op == "elem" && len(cur.A) == 1:
+					list, pos = cur.A[0], mk("key", cur.A[0])
+				case cur.Op == "idx" && len(cur.A) == 2:
+					list, pos = cur.A[0], stripConv(cur.A[1])
+				default:
+					return true
+				}
+				whole := (pos.Op == "key" && len(pos.A) == 1 && pos.A[0].Eq(list)) ||
+					(pos.Op == "keyfrom" && len(pos.A) == 2 && pos.A[1].Eq(list) && (pos.A[0].IsAt("#0") || pos.A[0].IsAt("#1")))
+				if !whole {
+					why = "the cursor " + shortTerm(pos) + " does not range over the whole list of windows"
+					return true
+				}
+				if prev.Op == "idx" && len(prev.A) == 2 && prev.A[0].Eq(list) {
+					pi := stripConv(prev.A[1])
+					if pi.Eq(mk("-", pos, atom("#1"))) {
+						ok = true
+					}
+					// the element under a counting cursor (bound like a range element) with the counter as predecessor index
+					if cur.Op == "elem" && pi.Op == "-" && len(pi.A) == 2 && pi.A[1].IsAt("#1") {
+						if kf := stripConv(pi.A[0]); kf.Op == "keyfrom" && len(kf.A) == 2 && kf.A[1].Eq(list) && (kf.A[0].IsAt("#0") || kf.A[0].IsAt("#1")) {
+							ok = true
+						}
+					}
+				}
+				return true
+			})
+		}
+	}
+	c.req(ok, rule, f.Name+"#time-windows-disjoint", f.Body.Pos(), "the pricing validator rejects a time window that starts before its predecessor ends, for every adjacent pair of the list"+condStr(!ok, ": "+why))
 }
